@@ -3,6 +3,9 @@ import os
 import shutil
 import subprocess
 import sys
+import time
+
+VERIF = os.path.dirname(os.path.dirname(os.path.abspath(__file__)))
 
 
 def setup(repo):
@@ -11,5 +14,31 @@ def setup(repo):
         if not shutil.which(tool):
             print('missing tool', tool)
             ok = False
-    os.makedirs(os.path.join(os.path.dirname(os.path.dirname(os.path.abspath(__file__))), '.cache'), exist_ok=True)
-    return 0 if ok else 1
+    os.makedirs(os.path.join(VERIF, '.cache'), exist_ok=True)
+    if not ok:
+        return 1
+    sys.path.insert(0, os.path.join(VERIF, 'lib'))
+    import native_run
+    import kani_run
+    import verus_run
+    t0 = time.time()
+    # warm: Verus (first run is slower), native target dir (builds the codec crates once), Kani target dir
+    try:
+        v = verus_run.run(os.path.join(repo, 'src'))
+        print('verus warm: verified=%s errors=%s in %.1fs' % (v['verified'], v['errors'], v['verus_wall_s']))
+    except Exception as e:
+        print('verus warm-up failed:', e)
+        return 1
+    scratch = os.path.join(os.environ.get('TMPDIR', '/tmp'), 'grenad-verif-native')
+    native_run.make_scratch(repo, scratch)
+    env = dict(os.environ, CARGO_NET_OFFLINE='true', CARGO_TARGET_DIR=os.path.join(VERIF, '.cache', 'native-target'))
+    p = subprocess.run(['cargo', 'test', '--offline', '--release', '--features', native_run.FEATURES, '--tests', '--no-run'],
+                       cwd=scratch, env=env, capture_output=True, text=True)
+    shutil.rmtree(scratch, ignore_errors=True)
+    print('native build: rc=%d in %.1fs' % (p.returncode, time.time() - t0))
+    if p.returncode != 0:
+        print(p.stderr[-3000:])
+        return 1
+    r = kani_run.run_harnesses(['c14_varint_roundtrip_all_u32'], repo=repo)
+    print('kani warm:', {k: v['status'] for k, v in r.items()})
+    return 0
